@@ -357,7 +357,9 @@ def case_dimprep(ctx, res, p):
     res.count("dimprep:d=%s" % ("local_dimensionality" if d_arg is None else "given"))
     sample = {"op": "dimprep", "X_shape": list(X.shape), "k": k, "d": "default" if d_arg is None else "given"}
     try:
-        est = m.DimensionalityEstimator(k=k, d=d_arg)
+        kw_ = {} if p.get("mu_dim") is None else {"mu_dim": float(p["mu_dim"])}
+        res.count("dimprep:mu_dim=" + ("default" if not kw_ else "given"))
+        est = m.DimensionalityEstimator(k=k, d=d_arg, **kw_)
         loss_func, z0 = est.prepare_inference(X)
         dist = np.asarray(est.distances, float)
         nn = np.asarray(est.nn_distances, float)
@@ -683,7 +685,9 @@ def gen_dimprep(rng, quick):
     X, _ = distinct_points(rng, n, f)
     k = int(rng.choice([1, 2, 5, 10, 15])) if quick else int(rng.integers(1, 16))   # few shapes in quick runs
     d = None if rng.random() < (0.15 if quick else 0.3) else np.exp(rng.uniform(np.log(0.7), np.log(8.0), size=n))
-    return {"op": "dimprep", "X": X, "k": k, "d": d, "zseed": int(rng.integers(1 << 30)), "zscales": [0.0, 0.2]}
+    # the prior mean of the log-dimensionality (non-default option): d = exp(L z + mu_dim)
+    mu_dim = None if rng.random() < 0.4 else float(rng.choice([np.log(3.0), -0.7, 0.5, 1.5]))
+    return {"op": "dimprep", "X": X, "k": k, "d": d, "zseed": int(rng.integers(1 << 30)), "zscales": [0.0, 0.2], "mu_dim": mu_dim}
 
 
 def gen_helpers(rng):
